@@ -309,6 +309,15 @@ let handle (t : string list) : string =
       | ["N"] -> let (s', _) = astep fam !st ANew in st := s'; "N"
       | _ -> "?") (split ',' ops) in
     String.concat "," outs
+  (* armrun <index> <N> <script of 0/1> : the GENERATED model of arm <index> of fake! and the reference meaning of its options *)
+  | ["armrun"; idx; n; script] ->
+    let a = List.nth fake_arms (int_of_string idx) in
+    let sc = List.init (String.length script) (fun i -> script.[i] = '1') in
+    let show (l : callout list) = String.concat ";" (List.map (fun o ->
+        (match o.c_res with Returned -> "ret" | PanicOver -> "over" | PanicArgs -> "args" | Unreachable -> "unreachable" | Stuck -> "stuck") ^ ":" ^
+        String.concat "" (List.map (function FxAssign -> "a" | FxValue -> "v") o.c_fx)) l) in
+    Printf.sprintf "model=%s ref=%s wf=%b canonical=%b" (show (run_arm a (nat_of_int (int_of_string n)) O sc))
+      (show (ref_call a.k_when a.k_assign a.k_returns a.k_times (nat_of_int (int_of_string n)) O sc)) (arm_wf a) (arm_canonical a)
   (* count <N> <panicking 0|1> <schedule: comma-separated <thread>r (the atomic RMW of a matching call) | <thread>l (a local step)> *)
   | ["count"; n; pk; sched] ->
     let sch = List.map (fun tk -> let l = String.length tk in
